@@ -627,6 +627,20 @@ func checkC10Scratch(p *Prog, r *Report, ru *Rule) {
 						bad = true
 						ru.Bad(c, posOf(st), "the notice is assembled in package variable %s shared by every call", g.Name())
 					}
+				case "call":
+					/* unsafe.String: the text IS the bytes it was made
+					from, so those must belong to this call alone. */
+					if "builtin.String" != x.Callee {
+						continue
+					}
+					call, ok := x.V.(*ssa.Call)
+					if !ok || 0 == len(call.Call.Args) {
+						continue
+					}
+					if why := reusedBytes(call.Call.Args[0]); "" != why {
+						bad = true
+						ru.Bad(c, posOf(st), "the notice's text is not a copy but the very bytes of %s (unsafe.String): it is still queued for the terminal when those bytes are handed to the next call, which overwrites the notice before it is shown", why)
+					}
 				}
 			}
 			if !bad {
@@ -637,6 +651,103 @@ func checkC10Scratch(p *Prog, r *Report, ru *Rule) {
 	if n < 3 {
 		ru.Unproven("CLine.Line stores", token.NoPos, "%d stores to CLine.Line found, at least 3 expected", n)
 	}
+}
+
+// reusedBytes says where the bytes behind pointer/slice v come from when
+// that is memory which outlives the call or goes back to a pool ("" when they
+// are made by the call itself).
+func reusedBytes(v ssa.Value) string {
+	through := func(n string) bool {
+		switch n {
+		case "builtin.SliceData", "builtin.StringData", "builtin.append", "fmt.Appendf", "fmt.Append", "fmt.Appendln",
+			"strconv.AppendInt", "strconv.AppendUint", "strconv.AppendQuote", "strconv.AppendBool",
+			"(*bytes.Buffer).Bytes", "(*bytes.Buffer).AvailableBuffer", "slices.Grow", "bytes.TrimSpace", "bytes.TrimRight":
+			return true
+		}
+		return false
+	}
+	/* Only the destination operand of an append-like call is the buffer;
+	what is appended is copied into it. */
+	var bases []ssa.Value
+	seen := map[ssa.Value]bool{}
+	var walk func(v ssa.Value)
+	walk = func(v ssa.Value) {
+		if nil == v || seen[v] {
+			return
+		}
+		seen[v] = true
+		switch x := v.(type) {
+		case *ssa.Call:
+			if through(calleeName(x.Common())) {
+				if args := callArgs(x.Common()); 0 != len(args) {
+					walk(args[0])
+					return
+				}
+			}
+		case *ssa.Slice:
+			walk(x.X)
+			return
+		case *ssa.TypeAssert:
+			walk(x.X)
+			return
+		case *ssa.Extract:
+			if ta, ok := x.Tuple.(*ssa.TypeAssert); ok && 0 == x.Index {
+				walk(ta.X)
+				return
+			}
+		case *ssa.UnOp:
+			/* A slice loaded through a pointer which is itself a value
+			(bp := pool.Get().(*[]byte); *bp). */
+			if token.MUL == x.Op {
+				switch x.X.(type) {
+				case *ssa.Alloc, *ssa.FieldAddr, *ssa.Global, *ssa.IndexAddr, *ssa.FreeVar:
+				default:
+					walk(x.X)
+					return
+				}
+			}
+		case *ssa.Phi:
+			for _, e := range x.Edges {
+				walk(e)
+			}
+			return
+		}
+		bases = append(bases, v)
+	}
+	walk(v)
+	var roots []Root
+	for _, b := range bases {
+		roots = append(roots, valueRoots(b, nil)...)
+	}
+	for _, x := range roots {
+		switch x.Kind {
+		case "call":
+			switch x.Callee {
+			case "(*sync.Pool).Get":
+				return "a buffer taken from a sync.Pool"
+			}
+		case "field":
+			if nil != x.Field {
+				return "field " + x.Field.Name()
+			}
+			return "a field"
+		case "global":
+			if g, ok := x.V.(*ssa.Global); ok {
+				return "package variable " + g.Name()
+			}
+		case "param":
+			if _, isStr := x.V.Type().Underlying().(*types.Basic); !isStr {
+				return "a buffer passed in by the caller"
+			}
+		case "other":
+			if fa, ok := x.V.(*ssa.FieldAddr); ok {
+				if fv, _ := fieldAddrOf(fa); nil != fv {
+					return "field " + fv.Name()
+				}
+			}
+		}
+	}
+	return ""
 }
 
 // ordinalIn numbers same-kind constructs within a function in source order.
@@ -742,11 +853,21 @@ func checkC10Undecoded(p *Prog, r *Report, ru *Rule, known map[*ssa.Function]pri
 			}
 			n++
 			var dec ssa.Value
+			var decPath *ssa.FieldAddr
 			for _, a := range c.Args[idx+1:] {
 				reachesThroughCalls(a, func(x ssa.Value) bool {
 					if cl, ok := x.(*ssa.Call); ok && decoders[calleeName(cl.Common())] {
 						dec = cl
 						return true
+					}
+					/* URL.Path is what the server percent-decoded from
+					the request line (URL.String / RequestURI /
+					EscapedPath are not). */
+					if fa, ok := x.(*ssa.FieldAddr); ok {
+						if fv, _ := fieldAddrOf(fa); nil != fv && "Path" == fv.Name() && nil != fv.Pkg() && "net/url" == fv.Pkg().Path() {
+							decPath = fa
+							return true
+						}
 					}
 					return false
 				}, 0)
@@ -754,6 +875,9 @@ func checkC10Undecoded(p *Prog, r *Report, ru *Rule, known map[*ssa.Function]pri
 			construct := fmt.Sprintf("%s→%s@%s", fnName(fn), cname, p.Pos(posOf(i)))
 			if nil != dec {
 				ru.Bad(fnName(fn)+"→"+cname+":undecoded", posOf(i), "an argument of this notice went through %s (%s): the operator is shown a decoded form, not what the client sent character for character", calleeName(dec.(*ssa.Call).Common()), p.Pos(posOf(dec.(ssa.Instruction))))
+			}
+			if nil != decPath {
+				ru.Bad(fnName(fn)+"→"+cname+":undecoded", posOf(i), "an argument of this notice is the request URL's Path field (%s), which the server has already percent-decoded: %%20 is shown as a space and %%0A starts a new line, not what the client sent character for character", p.Pos(posOf(decPath)))
 			}
 			_ = construct
 		})
